@@ -10,7 +10,7 @@
  *               not stopped by GOAWAY or by a full write queue>
  *  h2c <fsize> <hex>
  *        h2_recv_continuation(9+flen(first frame), clen, cqlen, cq, con) on a read queue that
- *        holds <hex> in one chunk  -> ret=<n> flen=<merged u24> pad=<s[9] if PADDED> goaway=<code|->
+ *        holds <hex> in one chunk  -> ret=<n> flen=<merged u24> pad=<s[9] if PADDED> goaway=<code|-> clen=<n> bytes=<fnv32 of the chunk afterwards>
  *  h2h <cid> <goaway> <hex frame>
  *        h2_recv_headers(con, s, flen) directly (flen from the frame header; frame is the whole
  *        buffer)  -> rc=<n> goaway=<code|-> rused=<n> disc=<n>
@@ -198,7 +198,12 @@ int main(void) {
             const uint8_t * const s = (uint8_t *)(c->mem->ptr + c->offset);
             printf("ret=%u flen=%u pad=%d ", ret, h2_u24(s), padded && flen ? (int)s[9] : -1);
             put_goaway(h2c);
-            printf(" clen=%u\n", (unsigned)(buffer_clen(c->mem) - (uint32_t)c->offset));
+            {
+                const uint32_t cl = buffer_clen(c->mem) - (uint32_t)c->offset;
+                uint32_t hh = 2166136261u;
+                for (uint32_t i = 0; i < cl; ++i) hh = (hh ^ s[i]) * 16777619u;
+                printf(" clen=%u bytes=%u\n", (unsigned)cl, hh);
+            }
             con_end();
         }
         else if (0 == strcmp(op, "h2h") && ltv_ntok == 4) {
